@@ -10,6 +10,10 @@ import (
 	"math/big"
 	"time"
 
+	"github.com/btcsuite/btcd/btcec"
+	"github.com/btcsuite/btcd/chaincfg"
+	"github.com/btcsuite/btcd/txscript"
+	"github.com/btcsuite/btcutil"
 	ecommon "github.com/ethereum/go-ethereum/common"
 	"github.com/ethereum/go-ethereum/common/hexutil"
 	etypes "github.com/ethereum/go-ethereum/core/types"
@@ -17,11 +21,15 @@ import (
 	"github.com/ethereum/go-ethereum/ethdb/memorydb"
 	"github.com/ethereum/go-ethereum/rlp"
 	"github.com/ethereum/go-ethereum/trie"
+	ocommon "github.com/ontio/ontology/common"
+	otypes "github.com/ontio/ontology/core/types"
 	"github.com/polynetwork/poly/account"
 	"github.com/polynetwork/poly/common"
+	vconfig "github.com/polynetwork/poly/consensus/vbft/config"
 	"github.com/polynetwork/poly/core/types"
 	scom "github.com/polynetwork/poly/native/service/cross_chain_manager/common"
 	ethp "github.com/polynetwork/poly/native/service/cross_chain_manager/eth"
+	scm "github.com/polynetwork/poly/native/service/governance/side_chain_manager"
 	"github.com/polynetwork/poly/native/service/header_sync/bsc"
 	"github.com/polynetwork/poly/native/service/header_sync/eth"
 	"github.com/polynetwork/poly/native/service/utils"
@@ -30,6 +38,88 @@ import (
 )
 
 const bscChainID = 56
+
+func bytesOf(b byte, n int) []byte {
+	r := make([]byte, n)
+	for i := range r {
+		r[i] = b
+	}
+	return r
+}
+
+// ontGenesis: an Ontology header whose consensus payload announces n peers (stored as a peer map by the ont light client).
+func ontGenesis(n int) []byte {
+	cfg := &vconfig.ChainConfig{}
+	for i := 0; i < n; i++ {
+		a := account.NewAccount("")
+		cfg.Peers = append(cfg.Peers, &vconfig.PeerConfig{Index: uint32(i + 1), ID: vconfig.PubkeyID(a.PublicKey)})
+	}
+	payload, _ := json.Marshal(&vconfig.VbftBlockInfo{NewChainConfig: cfg})
+	h := &otypes.Header{Height: 0, ConsensusPayload: payload}
+	sink := ocommon.NewZeroCopySink(nil)
+	h.Serialization(sink)
+	return sink.Bytes()
+}
+
+// redeem: a BTC m-of-n multisig redeem script with its keys (side_chain_manager registerRedeem / setBtcTxParam).
+type redeem struct {
+	keys   []*btcec.PrivateKey
+	script []byte
+}
+
+func newRedeem(n, m int) *redeem {
+	r := &redeem{}
+	var pubs []*btcutil.AddressPubKey
+	for i := 0; i < n; i++ {
+		k, err := btcec.NewPrivateKey(btcec.S256())
+		vio.Must(err)
+		r.keys = append(r.keys, k)
+		ap, err := btcutil.NewAddressPubKey(k.PubKey().SerializeCompressed(), &chaincfg.TestNet3Params)
+		vio.Must(err)
+		pubs = append(pubs, ap)
+	}
+	s, err := txscript.MultiSigScript(pubs, m)
+	vio.Must(err)
+	r.script = s
+	return r
+}
+
+func (r *redeem) sign(hash []byte, who ...int) [][]byte {
+	var out [][]byte
+	for _, i := range who {
+		sig, err := r.keys[i].Sign(hash)
+		vio.Must(err)
+		out = append(out, sig.Serialize())
+	}
+	return out
+}
+
+func (r *redeem) registerArgs(who ...int) []byte {
+	contract := bytesOf(0xc7, 20)
+	cat := append([]byte{}, r.script...)
+	cat = append(cat, utils.GetUint64Bytes(1)...)
+	cat = append(cat, contract...)
+	cat = append(cat, utils.GetUint64Bytes(2)...)
+	cat = append(cat, utils.GetUint64Bytes(1)...)
+	p := &scm.RegisterRedeemParam{RedeemChainID: 1, ContractChainID: 2, Redeem: r.script, CVersion: 1, ContractAddress: contract,
+		Signs: r.sign(btcutil.Hash160(cat), who...)}
+	s := common.NewZeroCopySink(nil)
+	p.Serialization(s)
+	return s.Bytes()
+}
+
+func (r *redeem) txParamArgs(who ...int) []byte {
+	d := &scm.BtcTxParamDetial{PVersion: 1, FeeRate: 10, MinChange: 5000}
+	cat := append([]byte{}, r.script...)
+	cat = append(cat, utils.GetUint64Bytes(1)...)
+	cat = append(cat, utils.GetUint64Bytes(d.FeeRate)...)
+	cat = append(cat, utils.GetUint64Bytes(d.MinChange)...)
+	cat = append(cat, utils.GetUint64Bytes(d.PVersion)...)
+	p := &scm.BtcTxParam{Redeem: r.script, RedeemChainId: 1, Sigs: r.sign(btcutil.Hash160(cat), who...), Detial: d}
+	s := common.NewZeroCopySink(nil)
+	p.Serialization(s)
+	return s.Bytes()
+}
 
 func hdrJSON(h interface{}) []byte {
 	b, err := json.Marshal(h)
